@@ -2,6 +2,7 @@ package gw
 
 import (
 	"fmt"
+	"sort"
 	"testing"
 
 	"pgregory.net/rapid"
@@ -129,7 +130,7 @@ func TestC11(t *testing.T) {
 		ID: "C11", Name: "sleep-buffering", Bubble: true,
 		Rule: "connected session subscribed to '#'; 1-4 sleep cycles (before the first, in a quarter of the cases, a PINGREQ of the still active client whose PINGRESP the broker sends while the gateway is writing its answer to the sleep announcement), each DISCONNECT(duration) followed by 1-3 wake-ups (PINGREQ with client ID) and ended by CONNECT (or by the next DISCONNECT(duration)); 0-3 broker publishes (QoS 0/1/2; short, predefined, registered and new topics; uniquely tagged payloads) before each wake-up at drawn offsets around RetryDelay, optionally one, or a burst of 2-8 with the PINGREQ somewhere inside it, at the same instant as the PINGREQ (no settling between the injections), optionally one between PINGRESP and the next wake-up. Non-trivial = at least one publish buffered during sleep; labels separate racing publishes and second-or-later cycles; distinct by script.",
 		Assumptions: []string{"client state per doc/specification-interpretation.md: asleep from the gateway's DISCONNECT reply until PINGREQ, awake until the PINGRESP, asleep again until PINGREQ / CONNECT / DISCONNECT",
-			"publishes on topics that need a REGISTER first are only required to be silent during sleep and delivered at most once (their PUBLISH follows the client's REGACK, which the statement does not place)",
+			"publishes on topics that need a REGISTER first must be silent during sleep, are delivered at most once, and must have been delivered by the time the client is active again at the end of the history (their PUBLISH follows the client's REGACK: in which flush is not constrained)",
 			"which flush a publish racing with the PINGREQ lands in is not constrained; the order among the broker's messages is"},
 		Gen: genSleep,
 		Run: func(c sleepCase) (r vf.Result) {
@@ -303,6 +304,20 @@ func checkSleep(c sleepCase, tr *gwsim.Trace, r *vf.Result) {
 		for _, o := range owed {
 			r.Fail("never-delivered", "%s was never delivered although the client returned to the active state\n%s", o, tr.Dump(40))
 			break
+		}
+		// ... and that includes the messages on topics which needed a REGISTER first: the REGISTER is
+		// one of the packets the gateway "would have sent", the client has acknowledged it by now
+		// (the scripted client answers every REGISTER at once), and the PUBLISH follows
+		var tags []string
+		for tag := range loose {
+			tags = append(tags, tag)
+		}
+		sort.Strings(tags)
+		for _, tag := range tags {
+			if delivered[tag] == 0 && !racingTags[tag] {
+				r.Fail("never-delivered/new-topic", "%s (on a topic which needed a REGISTER) was never delivered although the client woke up, acknowledged the REGISTER and returned to the active state\n%s", tag, tr.Dump(60))
+				break
+			}
 		}
 	}
 	r.NonTrivial = buffered > 0
